@@ -672,7 +672,10 @@ fn rt_chunk_terms(c: &RtChunk) -> Vec<T> {
                             out.push(T::bin(op, b.clone(), a.clone()));
                         }
                     }
-                    out.push(T::bin(op, a.clone(), a.clone()));
+                    // the same base symbol under two different extensions (sign / amount belong to the use site)
+                    for a2 in la.iter() {
+                        out.push(T::bin(op, a.clone(), a2.clone()));
+                    }
                 }
             }
         }
